@@ -50,7 +50,10 @@ class CancellableAction(Future):
 
         try:
             with kiwipy.capture_exceptions(self):
-                self.set_result(self._action(*args, **kwargs))
+                result = self._action(*args, **kwargs)
+                if not self.done():
+                    # The action can have been cancelled (superseded) by something it called while it was running
+                    self.set_result(result)
         finally:
             self._action = None  # type: ignore
 
